@@ -52,8 +52,9 @@ try:
             shutil.copy(rp, os.path.join(dst, "caught_by_%s.json" % c))
 finally:
     subprocess.run(["git", "-C", "/repo", "worktree", "remove", "--force", wt], capture_output=True)
-    shutil.rmtree(os.path.join(VERIF, "replays"), ignore_errors=True)
-    subprocess.run(["git", "-C", VERIF, "checkout", "--", "replays"], capture_output=True)
+    for c in checks:  # only this run's sub-directories: several evaluations may run side by side
+        shutil.rmtree(os.path.join(VERIF, "replays", c), ignore_errors=True)
+        subprocess.run(["git", "-C", VERIF, "checkout", "--", "replays/" + c], capture_output=True)
 meta = {}
 mp = os.path.join(dst, "meta.json")
 if os.path.exists(mp):
